@@ -1,2 +1,96 @@
+/* misc.* : internal (non-static) helpers of the library, reached by linking its objects */
 #include "hx.h"
-const op_t ops_misc[] = { { NULL, NULL } };
+#include <jose/jws.h>
+#include <jose/jwe.h>
+#include "misc.h"
+
+/* lib/openssl/misc.h is not included (name clash with lib/misc.h); prototypes repeated */
+bool add_entity(json_t *root, json_t *obj, const char *plural, ...);
+
+static json_t *
+op_add_entity(json_t *args)
+{
+    json_t *root = json_deep_copy(hx_arg(args, "root"));
+    json_t *obj = json_deep_copy(hx_arg(args, "obj"));
+    const char *plural = hx_arg_str(args, "plural");
+    json_t *keys = hx_arg(args, "keys");
+    const char *k[4] = { NULL, NULL, NULL, NULL };
+    bool ok;
+    json_t *res;
+
+    for (size_t i = 0; i < json_array_size(keys) && i < 3; i++)
+        k[i] = json_string_value(json_array_get(keys, i));
+    ok = add_entity(root, obj, plural, k[0], k[1], k[2], NULL);
+    res = json_pack("{s:b}", "ok", ok);
+    if (ok)
+        json_object_set(res, "root", root);
+    json_decref(root);
+    json_decref(obj);
+    return res;
+}
+
+/* a history of additions on one object: the object after every step (null after a refused step,
+ * which leaves the object as it was for the next step) */
+static json_t *
+op_entity_hist(json_t *args)
+{
+    json_t *root = json_deep_copy(hx_arg(args, "start"));
+    json_t *objs = hx_arg(args, "objs");
+    const char *plural = hx_arg_str(args, "plural");
+    json_t *keys = hx_arg(args, "keys");
+    const char *k[4] = { NULL, NULL, NULL, NULL };
+    json_t *out = json_array();
+    size_t i;
+    json_t *o;
+
+    for (size_t j = 0; j < json_array_size(keys) && j < 3; j++)
+        k[j] = json_string_value(json_array_get(keys, j));
+    json_array_foreach(objs, i, o) {
+        json_t *before = json_deep_copy(root);
+        json_t *oc = json_deep_copy(o);
+        if (add_entity(root, oc, plural, k[0], k[1], k[2], NULL)) {
+            json_array_append_new(out, json_deep_copy(root));
+            json_decref(before);
+        } else {
+            json_array_append_new(out, json_null());
+            json_decref(root);
+            root = before;
+        }
+        json_decref(oc);
+    }
+    json_decref(root);
+    return json_pack("{s:o}", "steps", out);
+}
+
+static json_t *
+op_encode_protected(json_t *args)
+{
+    json_t *obj = json_deep_copy(hx_arg(args, "obj"));
+    bool ok = encode_protected(obj);
+    json_t *res = json_pack("{s:b}", "ok", ok);
+    if (ok)
+        json_object_set(res, "obj", obj);
+    json_decref(obj);
+    return res;
+}
+
+static json_t *
+op_jws_hdr(json_t *args)
+{
+    return hx_opt(jose_jws_hdr(hx_arg(args, "sig")));
+}
+
+static json_t *
+op_jwe_hdr(json_t *args)
+{
+    return hx_opt(jose_jwe_hdr(hx_arg(args, "jwe"), hx_arg(args, "rcp")));
+}
+
+const op_t ops_misc[] = {
+    { "misc.add_entity", op_add_entity },
+    { "misc.entity_hist", op_entity_hist },
+    { "misc.encode_protected", op_encode_protected },
+    { "jws.hdr", op_jws_hdr },
+    { "jwe.hdr", op_jwe_hdr },
+    { NULL, NULL }
+};
